@@ -1,7 +1,7 @@
 (* C05 — decoding is a pure function of graph, fixed values and vector.
    The correction search is a parameter `pick` with two stated hypotheses (answers inside the mask; consistent choice
    function). The theorems are about the mask / cache plumbing around it, for histories of any length. *)
-From DSG Require Import Base Proc ProcP.
+From DSG Require Import Base Proc ProcP Neighborhood NeighborhoodP.
 
 Theorem C05_decode_pure : forall (X : Type) (feasible_row : nat -> bool) (pick : mask -> X -> option nat),
   (forall m x r, pick m x = Some r -> m r = true) ->
@@ -44,3 +44,18 @@ Print Assumptions C05_aliasing_refuted.
 
 Example C05_ex_inv : AInv ainit /\ Inv (fun _ => true) mtrue.
 Proof. split; [apply AInv_init|apply Inv_true]. Qed.
+
+(* the fast encoder's imputation cache: keyed by the request alone (values and fixed flags; since 9b483be) a decode is the
+   same function of the request after any history of decodes ... *)
+Theorem C05_fast_cache_pure : forall feas (hist : list request) r,
+  let c := fold_left (fun c q => fst (decode_cached feas c q)) hist [] in
+  snd (decode_cached feas c r) = first_feasible feas r.
+Proof. exact decode_cached_pure. Qed.
+Print Assumptions C05_fast_cache_pure.
+
+(* ... storing the result under every vector tried on the way (the code as found, defect F11) is not *)
+Theorem C05_fast_cache_all_refuted :
+  snd (decode_cached_all w_feas (fst (decode_cached_all w_feas [] w_r1)) w_r2) <> snd (decode_cached_all w_feas [] w_r2) /\
+  snd (decode_cached w_feas (fst (decode_cached w_feas [] w_r1)) w_r2) = snd (decode_cached w_feas [] w_r2).
+Proof. exact decode_cached_all_refuted. Qed.
+Print Assumptions C05_fast_cache_all_refuted.
